@@ -3,6 +3,7 @@ package main
 import (
 	"bytes"
 	"fmt"
+	"reflect"
 
 	"github.com/llir/llvm/ir"
 	"github.com/llir/llvm/ir/constant"
@@ -47,7 +48,7 @@ type Obs struct {
 }
 
 var obsNames = []string{"m.String", "m.WriteTo", "f.LLString", "b.LLString", "inst.LLString", "v.Type", "v.Ident", "v.String",
-	"inst.Operands", "term.Succs", "g.LLString", "term.LLString", "term.Operands", "f.Type+Ident", "param.String", "operands.Ident+String+Type", "g.Type+Ident+String"}
+	"inst.Operands", "term.Succs", "g.LLString", "term.LLString", "term.Operands", "f.Type+Ident", "param.String", "operands.Ident+String+Type", "g.Type+Ident+String", "typedef.String+LLString", "metadata.Ident+LLString"}
 
 func (o Obs) String() string {
 	return fmt.Sprintf("%s(%d,%d,%d)", obsNames[o.K%len(obsNames)], o.A, o.B, o.C)
@@ -70,7 +71,7 @@ const (
 	nTermKinds = 6
 )
 
-var namePool = []string{"", "", "", "x", "y", "tmp", "val", "res", "a b", "p.q", "entry", "loop", "exit"}
+var namePool = []string{"", "", "", "x", "y", "tmp", "val", "res", "a b", "p.q", "entry", "loop", "exit", "0", "1", "3", "7"}
 
 // genProgram draws a program.
 func genProgram(r *rng, p genParams) *Prog {
@@ -128,13 +129,18 @@ func genProgram(r *rng, p genParams) *Prog {
 		case x < 88:
 			add(Step{Op: "setop", K: r.intn(6), A: sel(), B: sel(), C: sel(), D: sel(), P: sel()})
 		case x < 90:
-			if r.chance(1, 2) {
+			switch r.intn(3) {
+			case 0:
 				add(Step{Op: "setinc", K: r.intn(3), A: sel(), B: sel(), C: sel(), D: sel(), P: sel()})
-			} else {
+			case 1:
 				add(Step{Op: "setgep", A: sel(), B: sel()})
+			default:
+				add(Step{Op: "settype", K: r.intn(3), A: sel(), B: sel()})
 			}
 		case x < 95:
 			add(Step{Op: "remove", A: sel(), B: sel(), C: sel()})
+		case p.Metadata && x < 98:
+			add(Step{Op: "md", K: r.intn(4), A: sel(), B: sel(), C: sel(), D: sel(), Name: name()})
 		default:
 			if p.Metadata {
 				add(Step{Op: "md", K: r.intn(4), A: sel(), B: sel(), C: sel(), D: sel(), Name: name()})
@@ -154,6 +160,7 @@ type machine struct {
 	globals []*ir.Global
 	funcs   []*mfunc
 	mds     []*metadata.Tuple
+	structs []*types.StructType // identified struct types whose body may still grow
 	gnames  map[string]bool
 	uses    map[value.Value]int
 	ops     map[interface{}][]value.Value
@@ -715,6 +722,17 @@ func (mc *machine) exec1(s Step) bool {
 			mc.globals = append(mc.globals, g)
 			return true
 		}
+		if s.K%5 == 4 {
+			// An identified struct type whose body is filled in later ("settype"),
+			// used by a global right away (the usual idiom for recursive types).
+			st := types.NewStruct(types.I32)
+			mc.m.NewTypeDef(name, st)
+			mc.structs = append(mc.structs, st)
+			g := mc.m.NewGlobal(mc.uniq(mc.gnames, s.Name), st)
+			g.Linkage = enum.LinkageExternal
+			mc.globals = append(mc.globals, g)
+			return true
+		}
 		td := mc.m.NewTypeDef(name, t)
 		if s.K%3 != 2 {
 			g := mc.m.NewGlobalDef(mc.uniq(mc.gnames, s.Name), constant.NewZeroInitializer(td))
@@ -981,6 +999,21 @@ func (mc *machine) exec1(s Step) bool {
 		}
 		mc.probes["phi incoming replaced or appended"]++
 		return true
+	case "settype":
+		if len(mc.structs) == 0 {
+			return false
+		}
+		st := mc.structs[s.A%len(mc.structs)]
+		switch s.K % 3 {
+		case 0:
+			st.Fields = append(st.Fields, []types.Type{types.I8, types.I64, types.Double, types.NewPointer(st)}[s.B%4])
+		case 1:
+			st.Packed = !st.Packed
+		case 2:
+			st.SetName(fmt.Sprintf("ty%d.renamed", mc.stepNo))
+		}
+		mc.probes["struct type changed after its creation"]++
+		return true
 	case "setgep":
 		// Flip the field index of a struct getelementptr of the function (its
 		// result type depends on the value of that constant).
@@ -1143,23 +1176,28 @@ func (mc *machine) exec1(s Step) bool {
 			if b == nil || len(b.Insts) == 0 {
 				return false
 			}
-			att := &metadata.Attachment{Name: "dbg", Node: mc.mds[s.A%len(mc.mds)]}
-			switch in := b.Insts[s.D%len(b.Insts)].(type) {
-			case *ir.InstAdd:
-				in.Metadata = append(in.Metadata, att)
-			case *ir.InstLoad:
-				in.Metadata = append(in.Metadata, att)
-			case *ir.InstStore:
-				in.Metadata = append(in.Metadata, att)
-			case *ir.InstCall:
-				in.Metadata = append(in.Metadata, att)
-			case *ir.InstAlloca:
-				in.Metadata = append(in.Metadata, att)
-			case *ir.InstICmp:
-				in.Metadata = append(in.Metadata, att)
-			default:
+			att := &metadata.Attachment{Name: []string{"dbg", "note", "tbaa"}[s.A%3], Node: mc.mds[s.A%len(mc.mds)]}
+			// Every instruction, terminator, function and global embeds a list of
+			// metadata attachments.
+			var target interface{} = b.Insts[s.D%len(b.Insts)]
+			switch s.D % 5 {
+			case 3:
+				target = f.f
+			case 4:
+				if b.Term != nil {
+					target = b.Term
+				}
+			}
+			fv := reflect.ValueOf(target)
+			if fv.Kind() != reflect.Ptr {
 				return false
 			}
+			field := fv.Elem().FieldByName("Metadata")
+			if !field.IsValid() || !field.CanSet() {
+				return false
+			}
+			field.Set(reflect.Append(field, reflect.ValueOf(att)))
+			mc.probes["metadata attached"]++
 		case 3:
 			if len(mc.mds) == 0 {
 				return false
@@ -1362,6 +1400,22 @@ func (mc *machine) observe(o Obs) (applied bool, bad string) {
 				_ = (*op).Type()
 			}
 		}
+		return true, ""
+	case 17:
+		if len(mc.m.TypeDefs) == 0 {
+			return false, ""
+		}
+		t := mc.m.TypeDefs[o.A%len(mc.m.TypeDefs)]
+		_ = t.String()
+		_ = t.LLString()
+		return true, ""
+	case 18:
+		if len(mc.m.MetadataDefs) == 0 {
+			return false, ""
+		}
+		md := mc.m.MetadataDefs[o.A%len(mc.m.MetadataDefs)]
+		_ = md.Ident()
+		_ = md.LLString()
 		return true, ""
 	case 16:
 		if len(mc.globals) == 0 {
